@@ -191,6 +191,7 @@ func (s *Service) prune(ctx context.Context) {
 		if err != nil || len(headers) == 0 {
 			return
 		}
+		batchStart := lastPrunedHeader.Height()
 
 		failedSet := make(map[uint64]struct{})
 
@@ -218,6 +219,13 @@ func (s *Service) prune(ctx context.Context) {
 
 		if len(headers) < maxHeadersPerLoop {
 			// we've pruned all the blocks we can
+			return
+		}
+
+		if lastPrunedHeader.Height() == batchStart {
+			// not a single block of a full batch could be pruned, so the next iteration
+			// would fetch and fail the very same batch again, forever. The failed heights
+			// are recorded in the checkpoint and get retried on the next pruning round.
 			return
 		}
 	}
